@@ -411,6 +411,21 @@ Fixpoint added (a b : node) (here : list comp) {struct b} : list (list comp * bo
   | _ => []
   end.
 
+(* What a directory is: within each listing (hereditarily) the names are
+   distinct.  [lookup]/[extends] identify an entry by its name, so the frame
+   predicate below is only meaningful for such input roots; Corr.v checks it
+   of every recorded input root. *)
+Fixpoint names_distinct (n : node) {struct n} : bool :=
+  match n with
+  | Dir es =>
+    (fix go (l : entries) : bool :=
+       match l with
+       | [] => true
+       | (k, c) :: r => negb (existsb (String.eqb k) (map fst r)) && names_distinct c && go r
+       end) es
+  | _ => true
+  end.
+
 Definition parent_locs (decls : list (string * list comp)) : list (list comp) :=
   flat_map (fun pl => match snd pl with [] => [] | _ :: _ => [removelast (snd pl)] end) decls.
 
